@@ -313,3 +313,142 @@ def run_plan_c16(plan, prop, judge_response):
     res["sample"] = {"seed": plan["seed"], "driver": drv,
                      "ops": [(str(cmds.mk_cmd(o["cmd"])), o["out"]) for o in plan["ops"]]}
     return res
+
+
+# ---------------------------------------------------------------------------
+# C18: raw bytes each synchronous driver hands to its backend
+class _Recorder:
+    """Backend that records what is written and answers 'nothing'."""
+
+    def __init__(self):
+        self.written = []
+
+    # USBBackend-like
+    def write(self, data):
+        self.written.append(bytes(data) if not isinstance(data, tuple) else data)
+        return len(data)
+
+    def read(self, *a, **kw):
+        b = bytearray(64)
+        b[0], b[1] = 0x12, 0x71          # "no response" in the legacy tridonic layout
+        return bytes(b)
+
+    def close(self):
+        pass
+
+
+class _FakeHidDevice:
+    """hid.device stand-in for the legacy hasseb driver."""
+
+    def __init__(self):
+        self.written = []
+
+    def open(self, *a):
+        pass
+
+    def open_path(self, *a):
+        pass
+
+    def write(self, data):
+        self.written.append(bytes(data))
+        return len(data)
+
+    def read(self, n):
+        # status frame: no answer, echoing nothing
+        return [0xAA, 0x07, 0, 1, 0, 0, 0, 0, 0, 0][:n]
+
+
+class _FakeModbus:
+    def __init__(self):
+        self.written = []
+        self.counter = 0
+
+    def write_regs(self, reg, values, unit=None):
+        self.written.append((reg, tuple(values)))
+
+    def read_regs(self, reg, cnt, unit=None):
+        return [0] * cnt
+
+    def close(self):
+        pass
+
+
+def make_legacy(kind, world):
+    """-> (driver, recorder, written_getter)"""
+    import time as _time
+    if kind == "legacy-tridonic":
+        import dali.driver.tridonic as m
+        m.TridonicDALIUSBDriver._next_sn = 1          # class-level counter: reset per run
+        d = object.__new__(m.SyncTridonicDALIUSBDriver)
+        rec = _Recorder()
+        d.backend = rec
+        return d, rec, (lambda: rec.written), None
+    if kind == "legacy-hasseb":
+        import dali.driver.hasseb as m
+        saved = (m.time, m.hid)
+        m.time = world.clock
+        dev = _FakeHidDevice()
+        m.hid = types.SimpleNamespace(device=lambda: dev, enumerate=lambda *a: [])
+        d = m.SyncHassebDALIUSBDriver()
+
+        def restore():
+            m.time, m.hid = saved
+        return d, dev, (lambda: dev.written), restore
+    if kind == "unipi":
+        import dali.driver.unipi as m
+        saved = m.sleep
+        m.sleep = world.clock.sleep
+        d = object.__new__(m.SyncUnipiDALIDriver)
+        m.UnipiDALIDriver.__init__(d)
+        rec = _FakeModbus()
+        d.backend = rec
+        d.bus, d._sendreg, d._recvreg, d._fereg = 0, 13, 1, 38
+
+        def restore():
+            m.sleep = saved
+        return d, rec, (lambda: rec.written), restore
+    raise ValueError(kind)
+
+
+def execute_c18(plan):
+    """Send every command of the plan through a synchronous driver; returns
+    (world, [(spec, status, exc_or_result, packets_written_by_this_send)])."""
+    world = SyncWorld(plan["seed"])
+    drv = plan["driver"]
+    out = []
+    restore = None
+    if drv == "daliserver":
+        model = DaliServerModel(world, lambda b, v: ("silent",))
+        saved = dsmod.socket
+        dsmod.socket = fake_socket_module(model)
+        restore = lambda: setattr(dsmod, "socket", saved)     # noqa: E731
+        d = dsmod.DaliServer("sim", 1, multiple_frames_per_connection=plan["knobs"].get("multi", False))
+        d.__enter__()
+        written = lambda: model.requests                       # noqa: E731
+    elif drv == "atx":
+        model = AtxModel(world, lambda b, v: ("silent",))
+        saved = (atxmod.serial, atxmod.time)
+        atxmod.serial = fake_serial_module(model)
+        atxmod.time = world.clock
+        restore = lambda: (setattr(atxmod, "serial", saved[0]), setattr(atxmod, "time", saved[1]))   # noqa: E731
+        import logging
+        d = atxmod.SyncDaliHatDriver(port="/dev/ttySIM", LOG=logging.getLogger("verif-atx"))
+        written = lambda: model.lines_in                       # noqa: E731
+    else:
+        d, rec, written, restore = make_legacy(drv, world)
+    try:
+        for spec in plan["cmds"]:
+            n0 = len(written())
+            cmd = cmds.mk_cmd(spec)
+            try:
+                r = d.send(cmd)
+                st = ("ok", r)
+            except Exception as e:              # noqa: BLE001 - judged
+                st = ("raised", e)
+            pk = list(written()[n0:])
+            world.log.add(world.clock.t, "send", drv, (tuple(spec), st[0], [p.hex() if isinstance(p, (bytes, bytearray)) else p for p in pk]))
+            out.append((spec, st[0], st[1], pk))
+    finally:
+        if restore:
+            restore()
+    return world, out
